@@ -35,7 +35,7 @@ class MacroGen:
         def sub(): return self.form(d - 1)
         c = r.choice(['when', 'unless', 'my-when', 'my-unless', 'twice', 'k7', 'second-arg', 'with-x', 'plus-all', 'my-or2', 'pair', 'inc',
                       '->', '->>', 'thread-first', 'thread-last', 'if-let', 'when-let', 'if-let*', 'while-let',
-                      'plain', 'plain', 'let', 'cond', 'quote', 'lambda', 'setq', 'dotted'])
+                      'plain', 'plain', 'let', 'cond', 'quote', 'lambda', 'setq', 'dotted', 'dotcode'])
         if c in ('when', 'unless', 'my-when', 'my-unless'): return [c, sub()] + [sub() for _ in range(r.choice([0, 1, 2]))]
         if c == 'twice': return ['twice', sub()]
         if c == 'k7': return ['k7']
@@ -64,6 +64,9 @@ class MacroGen:
         if c == 'quote': return Q([r.choice(['when', 'inc', '->', 'my-when']), 1, [r.choice(['unless', 'twice']), 2]])
         if c == 'lambda': return ['funcall', ['lambda', ['p'], ['my-when', 'p', sub()]], sub()]
         if c == 'setq': return ['setq', r.choice(['a', 'b', 'n']), self.num(d - 1)]
+        if c == 'dotcode':
+            return r.choice([['list', 1, Dot(['progn', sub()], 2)], ['foo', Dot(['w'], 10), ['when', 1, Dot(['h'], 20)]],
+                             Dot(['list', sub()], 'tl'), ['progn', Dot([['k7'], 2], ['k7'])]])
         return ['list', Q(Dot([1, ['when', 2]], 3)), sub()]
 
     def num(self, d):
